@@ -29,7 +29,7 @@ ASSUMPTIONS = [
     "reference verdict: two independent set-level procedures that must agree (disagreement = harness error); its positive claims are certified numerically on random models in the self-check",
 ]
 BUDGET = {
-    "quick": dict(examples=250, shards=16, seconds=200, exhaustive=True, exhaustive_shards=8),
+    "quick": dict(examples=800, shards=16, seconds=200, exhaustive=True, exhaustive_shards=8),
     "thorough": dict(examples=4000, shards=16, seconds=2400, exhaustive=True, exhaustive_shards=16),
 }
 ESSENTIAL_LABELS = {t: ["unidentifiable", "identifiable", "isolated-node", "treatment-not-ancestor", "districts>=3"] for t in ("quick", "thorough")}
